@@ -114,22 +114,7 @@ def run(ctx):
     ctx.drv(args, timeout=3000, cmd_name="vdrv-handshake")
     r = json.load(open(out))
 
-    # infrastructure sanity: never a verdict
-    if r.get("infrastructure_errors"):
-        raise core.Inconclusive("replay infrastructure errors: %s" % r["infrastructure_errors"][:5])
     fw = r["forward_checks"]
-    if fw.get("hook_and_backend_disagree", 0):
-        raise core.Inconclusive("proxy-side hook and backend log disagree on %d forwarded queries" % fw["hook_and_backend_disagree"])
-    if not fw.get("forwardable_queries_forwarded") or not fw.get("backend_requests_with_token"):
-        raise core.Inconclusive("forward detection saw no forwarded query at all (vacuous)")
-    if r["replays"] < n_beh:
-        raise core.Inconclusive("only %d of %d behaviours replayed" % (r["replays"], n_beh))
-    if not r["frames_sent_compressed"] or not r["frames_received_compressed"]:
-        raise core.Inconclusive("no compressed frame was sent or received (codec switch not exercised)")
-    missing = [c for c in REQUIRED_CLASSES if not any(k.startswith(c) for k in r["classes"])]
-    if missing:
-        raise core.Inconclusive("input classes never replayed: %s" % missing)
-
     # 4. verdicts
     first = {}
     for mm in r.get("mismatches") or []:
@@ -176,3 +161,18 @@ def run(ctx):
         "binding_selftest": selftest,
         "wall_replay_s": r["wall_replay_s"],
     })
+
+    # infrastructure sanity: never a verdict
+    if r.get("infrastructure_errors"):
+        raise core.Inconclusive("replay infrastructure errors: %s" % r["infrastructure_errors"][:5])
+    if fw.get("hook_and_backend_disagree", 0):
+        raise core.Inconclusive("proxy-side hook and backend log disagree on %d forwarded queries" % fw["hook_and_backend_disagree"])
+    if not fw.get("forwardable_queries_forwarded") or not fw.get("backend_requests_with_token"):
+        raise core.Inconclusive("forward detection saw no forwarded query at all (vacuous)")
+    if r["replays"] < n_beh:
+        raise core.Inconclusive("only %d of %d behaviours replayed" % (r["replays"], n_beh))
+    if not r["frames_sent_compressed"] or not r["frames_received_compressed"]:
+        raise core.Inconclusive("no compressed frame was sent or received (codec switch not exercised)")
+    missing = [c for c in REQUIRED_CLASSES if not any(k.startswith(c) for k in r["classes"])]
+    if missing:
+        raise core.Inconclusive("input classes never replayed: %s" % missing)
